@@ -13,7 +13,8 @@ from common import ROOT, lean_driver
 
 LEVEL = 'proof'
 
-SIMPLE = ['enbc', 'disbc', 'enter', 'exit', 'call_ret', 'call_raise']
+SIMPLE = ['enbc', 'disbc', 'enter', 'exit', 'call_ret', 'call_raise', 'call_exit']       # enumerated exhaustively; the other ways out of a call are drawn at random
+CALLS = ['call_ret', 'call_raise', 'call_exit', 'call_kbint', 'call_cancel', 'call_genexit']
 
 
 def expand(hist):
@@ -30,7 +31,7 @@ def expand(hist):
             items.append(('en', t))
         elif name in ('disbc', 'exit'):
             items.append(('dis', t))
-        elif name in ('call_ret', 'call_raise'):
+        elif name in ('call_ret', 'call_raise', 'call_exit', 'call_kbint', 'call_cancel', 'call_genexit'):
             items += [('en', t), ('obs', t), ('dis', t)]
         elif name == 'nested':
             items += [('en', t), ('obs', t), ('en', t), ('obs', t), ('dis', t), ('obs', t), ('dis', t)]
@@ -155,7 +156,7 @@ def gen_history(rng, cls):
         elif r < 46:
             hist.append([t, rng.choice(['disbc', 'exit'])])
         elif r < 56:
-            hist.append([t, rng.choice(['call_ret', 'call_raise'])])
+            hist.append([t, rng.choice(CALLS)])
         elif r < 62:
             hist.append([t, 'nested', rng.below(2)])
         elif r < 70:
@@ -189,11 +190,11 @@ def run(ctx):
     build = ctx.build()
     cases = []
     # exhaustive short histories over the six simple ops (single thread), both classes
-    L = 4 if ctx.quick else 6
+    L = 4 if ctx.quick else 5
     exh = 0
     for n in range(1, L + 1):
         for combo in itertools.product(SIMPLE, repeat=n):
-            if ctx.quick and n == 4 and ctx.rng.below(4):
+            if ctx.quick and n == 4 and ctx.rng.below(8):
                 continue
             for cls in ('line', 'ctx'):
                 cases.append({'cls': cls, 'history': [[0, o] for o in combo], 'exh': True})
@@ -257,7 +258,7 @@ def run(ctx):
             nontrivial.add(json.dumps(c['history']) + c['cls'])
     ctx.coverage.update({
         'evaluations': len(cases), 'distinct_nontrivial': len(nontrivial),
-        'rule': 'all histories of length <= %d over {enbc, disbc, enter, exit, call_ret, call_raise} (sampled at the last length in quick) for both '
+        'rule': 'all histories of length <= %d over {enbc, disbc, enter, exit, call_ret, call_raise, call_exit (a call left by SystemExit)} (sampled at the last length in quick) for both '
                 'LineProfiler and ContextualProfile, plus random histories (4-40 ops, 1-3 threads serialised by hand-off) incl. nested decorated calls, '
                 'generators stepped / closed / dropped / exhausted, coroutines run / abandoned; non-trivial = count reaches 2 and a non-primitive op occurs' % L,
         'exhaustive_short_histories': exh, 'random_histories': nrand, 'multi_thread_histories': multi,
